@@ -24,9 +24,9 @@
      - RemoteSync returns the unfiltered Source.Time, no machine tick, and
        does not touch lastPushData; Client.Sync refuses a time slice whose
        length differs from the client's state count;
-     - RemoteHello overwrites mTime / queueTick / sum of the existing
-       lastPushData object and keeps its machTick and checksum; the client's
-       HandshakeDone sets machine tick 0.
+     - RemoteHello overwrites mTime / queueTick / machTick / sum of the
+       existing lastPushData object and keeps its checksum; the client's
+       HandshakeDone sets machine tick 0 (switch [p_hello_m]).
 
    A Go panic (nil tracerData, index out of range in a handler goroutine)
    is the sticky flag [st_err]. Proof-free on purpose. *)
@@ -38,7 +38,11 @@ Open Scope N_scope.
 
 Record pcfg := {
   p_codec : cfg;          (* schema / tracked / shallow, as in C10 *)
-  p_mut : bool            (* per-mutation sync (SyncMutations) *)
+  p_mut : bool;           (* per-mutation sync (SyncMutations) *)
+  (* one switch per candidate repair of the client side; the harness probes
+     which ones /repo contains *)
+  p_hello_m : bool;       (* HandshakeDone takes MachineTick from the Hello *)
+  p_sync_m : bool         (* RemoteSync fills MsgSrvSync.MachTick *)
 }.
 
 Inductive reply :=
@@ -49,7 +53,7 @@ Inductive wmsg :=
 | WPush (u : upd)                 (* ClientUpdate notification *)
 | WMuts (us : list upd)           (* ClientUpdateMutations notification *)
 | WReply (r : reply)              (* response of Remote{Add,Remove,Set} *)
-| WSync (t : list N) (q : N).     (* response of RemoteSync *)
+| WSync (t : list N) (q m : N).   (* response of RemoteSync *)
 
 Record server := {
   sv_last : tdata;                (* lastPushData *)
@@ -244,10 +248,11 @@ Definition do_write (s : st) : st :=
   end.
 
 (* RemoteSync *)
-Definition do_sync_serve (s : st) : st :=
+Definition do_sync_serve (p : pcfg) (s : st) : st :=
   let c := st_cl s in
   if cl_need c && negb (cl_stuck c)
-  then set_cl (set_wire s (st_wire s ++ [WSync (s_time (st_cur s)) (s_q (st_cur s))]))
+  then set_cl (set_wire s (st_wire s ++ [WSync (s_time (st_cur s)) (s_q (st_cur s))
+                                           (if p_sync_m p then s_m (st_cur s) else 0)]))
               (mk_client (cl_t c) (cl_q c) (cl_m c) (cl_stuck c) false (cl_errs c))
   else s.
 
@@ -283,12 +288,12 @@ Definition cl_set_stuck (c : client) : client :=
   mk_client (cl_t c) (cl_q c) (cl_m c) true (cl_need c) (cl_errs c).
 
 (* Client.Sync's handling of the response + clockSet *)
-Definition cl_sync (c : client) (t : list N) (q : N) : client :=
+Definition cl_sync (c : client) (t : list N) (q m : N) : client :=
   match t with
   | [] => cl_set_need c false
   | _ =>
     if Nat.eqb (length t) (length (cl_t c))
-    then mk_client t q 0 (cl_stuck c) false (cl_errs c)
+    then mk_client t q m (cl_stuck c) false (cl_errs c)
     else mk_client (cl_t c) (cl_q c) (cl_m c) (cl_stuck c) false (S (cl_errs c))
   end.
 
@@ -327,8 +332,8 @@ Definition do_deliver (p : pcfg) (s : st) : st :=
       | Some (c', true) => set_cl s' c'
       | Some (c', false) => set_cl s' (cl_set_need c' true)
       end
-    | WSync t q =>
-      set_flags (set_cl s' (cl_sync c t q)) (st_silent s) (st_rejpush s) true (st_npush s)
+    | WSync t q m =>
+      set_flags (set_cl s' (cl_sync c t q m)) (st_silent s) (st_rejpush s) true (st_npush s)
     end
   end.
 
@@ -344,11 +349,12 @@ Definition do_hello (p : pcfg) (s : st) : st :=
   let v := st_sv s in
   let last' := {| d_mtime := Some (hello_time c x);
                   d_sum := sum64 (filter_time (s_time x) (tracked c));
-                  d_q := s_q x; d_m := d_m (sv_last v); d_check := d_check (sv_last v) |} in
+                  d_q := s_q x; d_m := s_m x; d_check := d_check (sv_last v) |} in
   set_pend
     (set_wire
        (set_cl (set_sv s (mk_server last' (sv_latest v) (sv_queue v)))
-               (mk_client (hello_time c x) (s_q x) 0 false false (cl_errs (st_cl s))))
+               (mk_client (hello_time c x) (s_q x) (if p_hello_m p then s_m x else 0)
+                          false false (cl_errs (st_cl s))))
        [])
     None.
 
@@ -357,7 +363,7 @@ Fixpoint settle (p : pcfg) (fuel : nat) (s : st) : st :=
   match fuel with
   | O => s
   | S f =>
-    let s2 := do_sync_serve s in
+    let s2 := do_sync_serve p s in
     match st_wire s2 with
     | [] => s2
     | _ => if cl_stuck (st_cl s2) then s2 else settle p f (do_deliver p s2)
@@ -373,7 +379,7 @@ Definition step (p : pcfg) (s : st) (e : ev) : st :=
   | Write => do_write s
   | Deliver => do_deliver p s
   | SyncReq => do_sync_req s
-  | SyncServe => do_sync_serve s
+  | SyncServe => do_sync_serve p s
   | Hello => do_hello p s
   | Settle => settle p (2 * length (st_wire s) + 4) s
   end.
@@ -383,7 +389,8 @@ Definition exec (p : pcfg) (s : st) (es : list ev) : st := fold_left (step p) es
 (* the state right after the first handshake at source snapshot [x] *)
 Definition init (p : pcfg) (x : snap) : st :=
   {| st_sv := mk_server (hello_data (p_codec p) x) (Some init_data) [];
-     st_cl := mk_client (hello_time (p_codec p) x) (s_q x) 0 false false 0;
+     st_cl := mk_client (hello_time (p_codec p) x) (s_q x) (if p_hello_m p then s_m x else 0)
+                        false false 0;
      st_wire := []; st_pend := None; st_cur := x; st_err := false;
      st_silent := false; st_rejpush := false; st_synced := false; st_npush := 0;
      st_conn := true; st_initpush := false |}.
